@@ -1047,8 +1047,12 @@ fn check_attachments(
         }
         // events
         let mut ev_pos: HashMap<String, Vec<usize>> = HashMap::new();
+        let filler = matches!(e.ent, Ent::S(l) if m.spans[&l].filler);
         for (i, ev) in r.events.iter().enumerate() {
             let n = ev.name.to_string();
+            if filler && n == "fill" {
+                continue;
+            }
             match owns(&ev_owner, &n, e.ent) {
                 Some(true) => {}
                 Some(false) => v(out, Cat::AttachMisplaced, "event-on-wrong-span", format!("event {:?} of {:?} found on {:?}", n, ev_owner.get(&n), rname)),
